@@ -471,39 +471,63 @@ func ruleIdx3(c *Ctx, r *Reporter) {
 			}
 			nDel++
 			k := call.Call.Args[1]
-			guarded := false
-			allInstrs(fn, func(x ssa.Instruction) {
-				iff, ok := x.(*ssa.If)
-				if !ok {
-					return
+			guarded := notIDGuarded(fn, k, call)
+			if !guarded {
+				// the key may come out of a list of names a function of the package collected: then every name put into
+				// that list must have passed the test where it was appended
+				if u, ok := k.(*ssa.UnOp); ok && u.Op == token.MUL {
+					if ia, ok := u.X.(*ssa.IndexAddr); ok {
+						src := stripValue(ia.X)
+						var h *ssa.Function
+						switch x := src.(type) {
+						case *ssa.Extract:
+							if hc, ok := x.Tuple.(*ssa.Call); ok {
+								h = staticFn(&hc.Call)
+							}
+						case *ssa.Call:
+							h = staticFn(&x.Call)
+						}
+						if h != nil && h.Blocks != nil && (fnPkgPath(h) == pkgMongokit || fnPkgPath(h) == pkgLungo) {
+							nApp, allOK := 0, true
+							allInstrs(h, func(x ssa.Instruction) {
+								ac, ok := x.(*ssa.Call)
+								if !ok {
+									return
+								}
+								bi, ok := ac.Call.Value.(*ssa.Builtin)
+								if !ok || bi.Name() != "append" || typeKey(ac.Type()) != "[]string" || len(ac.Call.Args) != 2 {
+									return
+								}
+								sl, ok := ac.Call.Args[1].(*ssa.Slice)
+								if !ok {
+									allOK = false
+									return
+								}
+								arr, ok := sl.X.(*ssa.Alloc)
+								if !ok || arr.Referrers() == nil {
+									allOK = false
+									return
+								}
+								for _, ref := range *arr.Referrers() {
+									if ea, ok := ref.(*ssa.IndexAddr); ok && ea.Referrers() != nil {
+										for _, r2 := range *ea.Referrers() {
+											if st, ok := r2.(*ssa.Store); ok {
+												nApp++
+												if !notIDGuarded(h, st.Val, ac) {
+													allOK = false
+												}
+											}
+										}
+									}
+								}
+							})
+							if nApp > 0 && allOK {
+								guarded = true
+							}
+						}
+					}
 				}
-				bo, ok := iff.Cond.(*ssa.BinOp)
-				if !ok || (bo.Op != token.EQL && bo.Op != token.NEQ) {
-					return
-				}
-				var other ssa.Value
-				if sameLoad(bo.X, k) {
-					other = bo.Y
-				} else if sameLoad(bo.Y, k) {
-					other = bo.X
-				}
-				if s, ok := constString(other); other == nil || !ok || s != "_id_" {
-					return
-				}
-				ne := iff.Block().Succs[0]
-				eq := iff.Block().Succs[1]
-				if bo.Op == token.EQL {
-					ne, eq = eq, ne
-				}
-				// the delete must only be reachable through the not-equal edge
-				if (ne == call.Block() || ne.Dominates(call.Block())) && !blockReach([]*ssa.BasicBlock{eq}, map[*ssa.BasicBlock]bool{ne: true})[call.Block()] {
-					guarded = true
-				}
-				// early-return form: `if k == "_id_" { return err }` followed by the delete
-				if iff.Block().Dominates(call.Block()) && !blockReach([]*ssa.BasicBlock{eq}, nil)[call.Block()] {
-					guarded = true
-				}
-			})
+			}
 			r.check(guarded, funcName(fn)+":delete(c.Indexes, k)", c.pos(in.Pos()), "only reachable when k != \"_id_\"", "the _id_ index can be removed: duplicate _id values would be accepted afterwards")
 		})
 	}
@@ -910,4 +934,43 @@ func idxHelperCovers(c *Ctx, fn *ssa.Function, D *ssa.Call, kind string, wantSrc
 		}
 	})
 	return out
+}
+
+// notIDGuarded: instruction `at` of fn is only reached when the string k differs from "_id_" (a dominating test of k
+// against the constant, as a guard or as an early return).
+func notIDGuarded(fn *ssa.Function, k ssa.Value, at ssa.Instruction) bool {
+	guarded := false
+	allInstrs(fn, func(x ssa.Instruction) {
+		iff, ok := x.(*ssa.If)
+		if !ok {
+			return
+		}
+		bo, ok := iff.Cond.(*ssa.BinOp)
+		if !ok || (bo.Op != token.EQL && bo.Op != token.NEQ) {
+			return
+		}
+		var other ssa.Value
+		if sameLoad(bo.X, k) {
+			other = bo.Y
+		} else if sameLoad(bo.Y, k) {
+			other = bo.X
+		}
+		if s, ok := constString(other); other == nil || !ok || s != "_id_" {
+			return
+		}
+		ne := iff.Block().Succs[0]
+		eq := iff.Block().Succs[1]
+		if bo.Op == token.EQL {
+			ne, eq = eq, ne
+		}
+		// only reachable through the not-equal edge
+		if (ne == at.Block() || ne.Dominates(at.Block())) && !blockReach([]*ssa.BasicBlock{eq}, map[*ssa.BasicBlock]bool{ne: true})[at.Block()] {
+			guarded = true
+		}
+		// early-return form: `if k == "_id_" { return err }` followed by the use
+		if iff.Block().Dominates(at.Block()) && !blockReach([]*ssa.BasicBlock{eq}, nil)[at.Block()] {
+			guarded = true
+		}
+	})
+	return guarded
 }
